@@ -81,6 +81,81 @@ impl PropCheck for C14 {
     }
 }
 
+/// Source-level conditions of the listed findings C14-F2 / C14-F3 (narrow, syntactic).
+/// F3: a text `{`, one or more comments, then text starting with `{` (comments are not printed, so the braces join).
+/// F2: a binding that consists of one string literal only (printed as static text, pinned by the test lit_str).
+pub fn file_tag(src0: &str) -> Option<String> {
+    // entity spellings of `{` count as `{` (same length is not needed: only patterns are searched)
+    let src_owned = src0.replace("&#x7b;", "{").replace("&#x7B;", "{").replace("&#123;", "{").replace("&lbrace;", "{").replace("&lcub;", "{");
+    let src = src_owned.as_str();
+    let b = src.as_bytes();
+    let mut i = 0;
+    while i < b.len() {
+        if b[i] == b'{' && src[i + 1..].starts_with("<!--") {
+            let mut j = i + 1;
+            let mut comments = 0;
+            while src[j..].starts_with("<!--") {
+                match src[j + 4..].find("-->") {
+                    Some(k) => {
+                        j = j + 4 + k + 3;
+                        comments += 1;
+                    }
+                    None => break,
+                }
+            }
+            if comments > 0 && src[j..].starts_with('{') {
+                return Some("brace-text-comment-binding".to_string());
+            }
+        }
+        if src[i..].starts_with("{{") {
+            // skip whitespace and /* */ comments
+            let skip = |mut k: usize| {
+                loop {
+                    let rest = &src[k..];
+                    let t = rest.trim_start_matches(|c: char| c == ' ' || ('\x09'..='\x0d').contains(&c));
+                    k += rest.len() - t.len();
+                    if src[k..].starts_with("/*") {
+                        match src[k + 2..].find("*/") {
+                            Some(e) => k = k + 2 + e + 2,
+                            None => return k,
+                        }
+                    } else {
+                        return k;
+                    }
+                }
+            };
+            let k = skip(i + 2);
+            if let Some(q) = src[k..].chars().next().filter(|c| *c == '"' || *c == '\'') {
+                let mut m = k + 1;
+                let mut closed = false;
+                let bytes = src.as_bytes();
+                while m < bytes.len() {
+                    if bytes[m] == b'\\' {
+                        m += 2;
+                        continue;
+                    }
+                    if bytes[m] == q as u8 {
+                        closed = true;
+                        break;
+                    }
+                    m += 1;
+                }
+                if closed {
+                    let e = skip(m + 1);
+                    if src[e..].starts_with("}}") {
+                        return Some("lone-string-literal-binding-printed-static".to_string());
+                    }
+                }
+            }
+        }
+        i += 1;
+        while i < b.len() && !src.is_char_boundary(i) {
+            i += 1;
+        }
+    }
+    None
+}
+
 pub fn sources(c: &Case) -> Vec<(String, String)> {
     let mut src = crate::compile::print_group(&c.group, c.style);
     if !c.mutations.is_empty() {
@@ -115,9 +190,10 @@ pub fn eval_case(w: &mut Worker, c: &Case) -> Result<Outcome, String> {
             }
         };
         if s2 != s1 {
+            let tag = file_tag(t);
             out.failures.push(Failure {
                 sig: "C14|not-fixpoint".into(),
-                tag: None,
+                tag,
                 what: format!("printing is not a fixpoint: source {:?} prints as {:?} which prints as {:?}", crate::util::truncate(t, 160), crate::util::truncate(&s1, 160), crate::util::truncate(&s2, 160)),
                 detail: json!({"source": t, "s1": s1, "s2": s2}),
             });
@@ -125,7 +201,7 @@ pub fn eval_case(w: &mut Worker, c: &Case) -> Result<Outcome, String> {
         if let Some(d) = d1.iter().find(|d| d.level >= 2) {
             out.failures.push(Failure {
                 sig: format!("C14|printed-has-diagnostic|{}", d.kind),
-                tag: None,
+                tag: file_tag(t),
                 what: format!("printed text {:?} re-parses with diagnostic `{}` (level {}) at {:?}", crate::util::truncate(&s1, 200), d.kind, d.level, d.start),
                 detail: json!({"source": t, "s1": s1}),
             });
@@ -166,9 +242,23 @@ pub fn eval_case(w: &mut Worker, c: &Case) -> Result<Outcome, String> {
     for r in resp["results"].as_array().cloned().unwrap_or_default() {
         for m in r["mismatches"].as_array().cloned().unwrap_or_default().iter().take(2) {
             let m = Mismatch::from_json(m);
+            // listed finding C14-F1: with mangling on, scope references are printed as `_$N` while the declaring
+            // attributes are not renamed (pinned by the tests for_scope / for_if_scope / slot_value_ref_scope)
+            let tag = if c.mangling && s1s.iter().any(|(_, s)| s.contains("_$")) {
+                Some("mangled-scope-names-undeclared".to_string())
+            } else if let Some(t) = src.iter().find_map(|(_, t)| file_tag(t)) {
+                Some(t)
+            } else if m.ch == "p" && m.actual == "<absent>" && m.expected.starts_with('"') {
+                // listed finding C14-F2: a lone string-literal binding is printed as static text:
+                // `change:x="{{ 'literal' }}"` is printed as the static `change:x="literal"`, which
+                // generates no change binding (printing a lone string-literal binding as text is pinned by the test lit_str)
+                Some("lone-string-literal-binding-printed-static".to_string())
+            } else {
+                None
+            };
             out.failures.push(Failure {
                 sig: format!("C14|behaviour|{}", m.ch),
-                tag: None,
+                tag,
                 what: format!("re-printed template behaves differently: {} ; source {:?} printed {:?}", m.describe(), crate::util::truncate(&src[0].1, 200), crate::util::truncate(&s1s[0].1, 200)),
                 detail: json!({"source": src, "printed": s1s, "datas": datas}),
             });
